@@ -11,6 +11,7 @@ import (
 	"go/token"
 	"go/types"
 	"sort"
+	"strings"
 
 	"golang.org/x/tools/go/cfg"
 )
@@ -63,7 +64,7 @@ func MayReturn(info *types.Info) func(*ast.CallExpr) bool {
 				if p == "os" && n == "Exit" {
 					return false
 				}
-				if p == "log" && (n == "Fatal" || n == "Fatalf" || n == "Fatalln" || n == "Panic" || n == "Panicf" || n == "Panicln") {
+				if (p == "log" || strings.HasSuffix(p, "/log")) && (n == "Fatal" || n == "Fatalf" || n == "Fatalln" || n == "Panic" || n == "Panicf" || n == "Panicln") {
 					return false
 				}
 			}
